@@ -255,7 +255,7 @@ func readLineRules(c *Ctx, prop string) {
 				case 'n':
 					el[k] = fold.K('\n')
 				default:
-					el[k] = fold.Int{Lo: 0, Hi: 255, Name: fmt.Sprintf("c%d.%d", i, k)}
+					el[k] = fold.K(int64('A' + i*8 + k)) // distinct payload bytes, none of them a terminator
 				}
 			}
 			s := mm.NewBytes("chunk", el)
@@ -292,7 +292,7 @@ func readLineRules(c *Ctx, prop string) {
 					case 'n':
 						want = append(want, "10")
 					default:
-						want = append(want, fmt.Sprintf("c%d.%d", i, k))
+						want = append(want, fmt.Sprint('A'+i*8+k))
 					}
 				}
 			}
